@@ -87,24 +87,22 @@ Definition sc_f (s : str) : option (bool * str * str) :=
     | Some r' => Some (hx, firstn (length s1 - length r') s1, r')
     | None => None
     end in
-  let is_hex := match s2 with
-                | 48 :: x :: _ => (x =? 120) || (x =? 88)
-                | _ => false end in
+  let is_hex := (hd0 s2 =? 48) && ((at_ s2 1 =? 120) || (at_ s2 1 =? 88)) in
   if is_hex then
     let s3 := skipn 2 s2 in
     let i := takewhile isxdigit s3 in
     let r1 := dropwhile isxdigit s3 in
-    let '(fr, r2) := match r1 with
-                     | 46 :: r1' => (takewhile isxdigit r1', dropwhile isxdigit r1')
-                     | _ => ([], r1) end in
+    let '(fr, r2) := if hd0 r1 =? 46
+                     then (takewhile isxdigit (skipn 1 r1), dropwhile isxdigit (skipn 1 r1))
+                     else ([], r1) in
     if Nat.eqb (length i + length fr) 0 then None
     else finish true (opt_exp 112 80 r2)
   else
     let i := takewhile isdigit s2 in
     let r1 := dropwhile isdigit s2 in
-    let '(fr, r2) := match r1 with
-                     | 46 :: r1' => (takewhile isdigit r1', dropwhile isdigit r1')
-                     | _ => ([], r1) end in
+    let '(fr, r2) := if hd0 r1 =? 46
+                     then (takewhile isdigit (skipn 1 r1), dropwhile isdigit (skipn 1 r1))
+                     else ([], r1) in
     if Nat.eqb (length i + length fr) 0 then None
     else finish false (opt_exp 101 69 r2).
 
@@ -115,11 +113,11 @@ Definition parse_hex (t : str) : bool * Z * Z :=
   let s3 := skipn 2 s2 in
   let '(m1, r1) := read_digs isxdigit 16 s3 0 in
   let '(m2, nfrac, r2) :=
-    match r1 with
-    | 46 :: r1' => let '(m, r) := read_digs isxdigit 16 r1' m1 in
-                   (m, Z.of_nat (length r1' - length r), r)
-    | _ => (m1, 0, r1)
-    end in
+    if hd0 r1 =? 46
+    then let r1' := skipn 1 r1 in
+         let '(m, r) := read_digs isxdigit 16 r1' m1 in
+         (m, Z.of_nat (length r1' - length r), r)
+    else (m1, 0, r1) in
   let ex := match r2 with
             | c :: r => if (c =? 112) || (c =? 80)
                         then let '(n, r') := sc_sign r in
